@@ -593,16 +593,16 @@ pub fn run(ctx: &mut Ctx) {
 	ctx.assume("generic signatures, simple inner names, annotation element names, local variable / parameter names and invokedynamic / condy names are not compared (the remapper gives no answer for them)");
 	ctx.assume("unknown attributes are opaque bytes (as for duke's reader and writer): they must come out byte-identical at the same place");
 	ctx.assume("inheritance among the classes of a jar is acyclic");
-	ctx.run_sub("remap_jar", ctx.tier.pick(12000, 600000), strategy, check);
+	ctx.run_sub("remap_jar", ctx.tier.pick(24000, 600000), strategy, check);
 	ctx.run_sub(
 		"deep_hierarchy",
-		ctx.tier.pick(400, 8_000),
+		ctx.tier.pick(800, 8_000),
 		|| (any::<u16>(), proptest::collection::vec(any::<u8>(), 4..40), 0u8..3).prop_map(|(depth, map_stream, input_form)| DeepCase { depth, map_stream, input_form }),
 		deep_check,
 	);
 	ctx.run_sub(
 		"corpus_javac",
-		ctx.tier.pick(2000, 60_000),
+		ctx.tier.pick(4000, 60_000),
 		|| (proptest::collection::vec(any::<u16>(), 1..6), proptest::collection::vec(any::<u8>(), 0..160), 0u8..3).prop_map(|(picks, map_stream, input_form)| CorpusCase { picks, map_stream, input_form }),
 		corpus_check,
 	);
